@@ -86,7 +86,8 @@ def sanitize(s, pick=0):
     def rec(s, i):
         if not is_node_spec(s):
             return s
-        if s[0] == "Quotient" and len(s) == 3 and not has_var(s[2]):
+        if s[0] == "Quotient" and len(s) == 3 and not has_var(s[2]) \
+                and s[2] != ["Const", "int", 0]:      # a literal 1/0 is kept (poison)
             return ["Quotient", rec(s[1], i + 1), list(POW2[(pick + i) % len(POW2)])]
         if s[0] == "Power" and len(s) == 3:
             ev = const_value(s[2])
@@ -151,6 +152,8 @@ def rat_expr(draw, depth=3, quot=True, negexp=True, mixed=True, np_consts=True,
             num = rec(depth - 1)
             if avoid_known and const_value(num) is not None and const_value(num) == 1:
                 num = ["Const", "int", 2]
+            elif not avoid_known and d(st.integers(0, 2)) == 0:
+                num = ["Const", "int", 1]
             return ["Quotient", num, rec(depth - 1)]
         # Power
         if negexp and d(st.integers(0, 2)) == 0:
